@@ -96,6 +96,13 @@ def run_mc(ctx):
     ctx.mc("MC_PyramidAssembly", "MC_PyramidAssembly_intended", workers=16)
     ctx.mc("MC_PyramidAssembly2D", ctx.pick("MC_PyramidAssembly2D_quick", "MC_PyramidAssembly2D"),
            workers=16)
+    # unbounded complement: rounding the size up level by level equals rounding up once
+    # (ceil(ceil(n/a)/b) = ceil(n/(a*b)) for every n, a, b) - proved with the TLA+ proof
+    # system; reported, not a verdict
+    pr = tlc.tlaps_check("CeilHalving")
+    ctx.notes["tlaps_CeilHalving"] = {k: pr[k] for k in ("ok", "obligations", "proved")}
+    if not pr["ok"]:
+        print("PROOF-INCOMPLETE property=C06 CeilHalving: %d/%d obligations proved" % (pr["proved"], pr["obligations"]))
     if not ctx.quick:
         # the other invariants and the factorisation also hold for plain NumPy assignment
         ctx.mc("MC_PyramidAssembly", "MC_PyramidAssembly_numpy", workers=16)
